@@ -263,8 +263,9 @@ def run_check(harness_name, tier, seed=0, jobs=None, only=None):
         "wall_s": round(wall, 2),
         "violations": len(violations),
     }
-    os.makedirs(os.path.join(ROOT, "evidence"), exist_ok=True)
-    json.dump(ev, open(os.path.join(ROOT, "evidence", prop + ".json"), "w"), indent=1, default=str)
+    evdir = os.environ.get("SYMX_EVIDENCE_DIR") or os.path.join(ROOT, "evidence")     # mutant runs write elsewhere
+    os.makedirs(evdir, exist_ok=True)
+    json.dump(ev, open(os.path.join(evdir, prop + ".json"), "w"), indent=1, default=str)
     print("%s %s: cases=%d paths=%d queries=%d obligations=%d discharged=%d sat=%d unknown=%d validated=%d solver=%.1fs wall=%.1fs"
           % (prop, tier, len(tasks), agg["paths"], agg["queries"], agg["obligations"], agg["discharged"], agg["sat"],
              agg["unknown"], agg["validated"], solver_time, wall))
